@@ -5,6 +5,7 @@
 -/
 import Csvq.Model.Float
 import Csvq.Model.ParseFloat
+import Csvq.Model.ParseTime
 namespace Csvq.Proto
 open Csvq
 
@@ -83,6 +84,12 @@ def textProfileOK (p : Profile) : Bool :=
     let t := PF.strTernaryB b
     p.int? == PF.strToIntStrictB b && p.flt? == PF.strToFloat b && p.tern == t
       && p.bool? == (match t with | .U => none | .T => some true | .F => some false)
+      -- the datetime reading: the built-in notations all begin with a digit; a text that begins otherwise can
+      -- only be a datetime through a custom format of the session (the C07 stream runs under one), which the
+      -- model does not know
+      && (match PT.strToTime b with
+          | some d => p.dt? == some d
+          | none => p.dt? == none || !(PT.isDig ((PF.trimSpace b).getD 0 0)))
   | _ => true
 
 /-- profile token: raw;int;flt;dt;bool;strU;tern -/
